@@ -109,6 +109,9 @@ def run(ck):
                     max_leaf_size=L, n_trees=n_trees, overlap_fraction=f, verbose=False, classification_mode=cmode,
                     use_temperature_tuning=tuned, split_temperature=fixedT, temp_tuning_space=[0.0, 0.1, 0.7, 2.5], refill_size=20,
                     **(gate_kw if flat_gate else dict(split_method='random_global_agop', n_tree_iters=1) if i % 4 == 2 else {}))
+        if i % 7 == 6:
+            ctor['rfm_params'] = None          # the library's default leaf model (rfm_params=None)
+            desc['default_params'] = True
         xr.seed_all(3100 + i + ck.seed)
         src = xr.xRFM(**copy.deepcopy(ctor))
         try:
